@@ -114,6 +114,9 @@ def _work(job):
             rec = {"flags": fl, "input": w.hex(), "kinds": sorted(kinds), "msg": msg, "tags": sorted(tags)}
             kf = None
             for t in tags:
+                if t.startswith("quirk:"):
+                    kf = t[6:]
+            for t in tags:
                 if t in KNOWN_BY_TAG and kinds <= KNOWN_BY_TAG[t][1]:
                     kf = KNOWN_BY_TAG[t][0]
             if kf:
